@@ -212,6 +212,10 @@ def check(ctx):
             inner[dotted(s.target)] = dotted(s.value)
     want = {"crossings": "b.orig_crossings", "crossing_sustain_counts": "b.crossing_sustain_counts",
             "crossing_weights": "b.crossing_weights", "constraints": "b.orig_constraints", "design": "b.orig_design"}
+    # the union of the designs is not one of the parallel lists (its construction is C24's law table); only its source is compared when it
+    # is accumulated in this loop
+    if "design" not in inner:
+        want = {k: v for k, v in want.items() if k != "design"}
     ctx.check(inner == want, R, mg, "Merge accumulation %s" % sorted(inner.items()),
               "crossings, sustain counts, weights are appended block by block in one loop",
               "Merge accumulates %s, expected %s" % (sorted(inner.items()), sorted(want.items())))
